@@ -1,4 +1,5 @@
 pub mod c01;
+pub mod c05;
 pub mod c08;
 pub mod c10;
 pub mod c14;
